@@ -96,6 +96,9 @@ class MinSetCover():
             
             `True` if the model was solved, `False` otherwise.
         """
+        # A new run starts: what an earlier run on this object proved does not count for this one
+        self._is_solved = False
+        self._solution = None
         start_time = time.perf_counter()
 
         self.solver.optimize()
